@@ -515,6 +515,15 @@ def memo_key_gaps(tree: ast.AST) -> List[Tuple[ast.AST, str, Set[str]]]:
             if store.startswith("self.") or "." not in store and store not in {x.id for x in ast.walk(fn) if isinstance(x, ast.Name) and isinstance(x.ctx, ast.Store)}:
                 vary |= params
             gap = (v_names & vary) - k_names - {store.split(".")[0]}
+            # a local that holds the current entry (`cur = D[k]` ... `D[k] = f(cur)`): the statement updates an entry, the value
+            # depends on the table itself, not on something the key leaves out
+            for d in ast.walk(fn):
+                if isinstance(d, ast.Assign) and len(d.targets) == 1 and isinstance(d.targets[0], ast.Name) and d.targets[0].id in gap:
+                    v_ = d.value
+                    if (isinstance(v_, ast.Subscript) and norm(v_.value) == store and norm(v_.slice) == norm(key)) or (
+                            isinstance(v_, ast.Call) and isinstance(v_.func, ast.Attribute) and v_.func.attr == "get"
+                            and norm(v_.func.value) == store and v_.args and norm(v_.args[0]) == norm(key)):
+                        gap = gap - {d.targets[0].id}
             if gap:
                 out.append((n, store, gap))
     return out
